@@ -41,7 +41,7 @@ def write(pid, tier, seed, mir_hash, results, wall, violations, replays, known_p
         'coverage': {
             'states': max(paths, 0),
             'transitions': max(queries, 0),
-            'traces_validated_against_impl': replays + sum(1 for r in results if (r.get('fidelity') or {}).get('status') == 'agrees'),
+            'traces_validated_against_impl': replays + sum((r.get('fidelity') or {}).get('agrees', 0) for r in results),
             'samples': samples,
             'obligations': len(results),
             'discharged': sum(1 for r in results if r.get('verdict') == 'unsat'),
@@ -51,7 +51,7 @@ def write(pid, tier, seed, mir_hash, results, wall, violations, replays, known_p
             'solver_time_s': round(sum(r.get('solver_s', 0.0) for r in results), 3),
             'solvers': ['z3 %s (python API)' % _z3v()],
             'model_validation': model_validation,
-            'fidelity_runs': {'agrees': sum(1 for r in results if (r.get('fidelity') or {}).get('status') == 'agrees'),
+            'fidelity_runs': {'agrees': sum((r.get('fidelity') or {}).get('agrees', 0) for r in results),
                               'differs': sum(1 for r in results if (r.get('fidelity') or {}).get('status') == 'differs'),
                               'skipped': sum(1 for r in results if (r.get('fidelity') or {}).get('status') in (None, 'skipped'))},
             'known_findings_printed': [k.get('id') for k in known_printed],
